@@ -27,12 +27,16 @@ static void run_program(vf_case *c, const vf_api *P, const vf_mat *A, uint64_t p
     if (forced == 3) { lwork = (int_t)generous_lwork(P, n, A->nnz); work = vf_ws_alloc(c, (size_t)lwork + 16); }
     if (forced == 2) lwork = -1;
     if (forced == 1) vf_fault_arm("expand", rng_int(r, 1, 6));
+    if (forced == 6) vf_fault_arm("LUWorkInit", 1);      /* library allocation: the request for the numerical work array fails (documented out-of-memory return, info > n) */
     /* growable arrays started at small capacities (guarded hook): growth sites reached at the exactly-full state, in place when in a workspace */
     int capstart = (forced == 4 || forced == 5 || (forced == 3 && rng_bool(r, 0.5)));
     if (capstart) { long hi = 2 + 2 * (long)A->nnz; vf_cap_set(rng_bool(r, 0.7) ? rng_int(r, 1, (int)hi) : 0, rng_bool(r, 0.7) ? rng_int(r, 1, (int)hi) : 0, rng_bool(r, 0.7) ? rng_int(r, 1, (int)hi) : 0); }
     out->forced = forced;
     fact_run R; fact_do(P, A, &opt, mypc, work, lwork, 0, &R);
+    int fired = forced == 6 && vf_fault_fired();
     vf_fault_arm(NULL, 0); vf_cap_set(0, 0, 0);
+    if (fired && !(R.info > n)) vf_viol(c, "work-allocation-failure-not-reported", "the allocation of the numerical work array failed inside ?LUWorkInit but ?gstrf returned info=%lld (documented: info > n = %d)", (long long)R.info, n);
+    if (verbose_tags && fired) vf_tag(c, "work-allocation-failed");
     if (verbose_tags && capstart) vf_tag(c, "capacity-start");
     out->info = R.info; out->h = fnv64(out->h, &R.info, sizeof R.info);
     if (verbose_tags) { vf_tag(c, "exit=%s", R.info == 0 ? "ok" : R.info < 0 ? "neg" : R.info <= n ? "singular" : forced == 2 ? "query" : "nomem"); vf_tag(c, "forced=%d", forced); }
